@@ -72,7 +72,17 @@ func (c *Ctx) Instances(rule string, n int)  { c.instances[rule] += n }
 func (c *Ctx) InstanceCount(rule string) int { return c.instances[rule] }
 
 // Floor declares the minimum instance count confirmed by hand; below it the rule has gone blind.
-func (c *Ctx) Floor(rule string, n int) { c.floors[rule] = n }
+// Floor: the rule must keep matching. n is the number of instances confirmed by hand when the rule was written; the
+// check fails when fewer than half of them (at least one) are matched - a rule that lost its anchors collapses to zero
+// or a handful, while code that is legitimately removed or merged (two helpers unified, deprecated functions
+// dropped) takes a few instances away and must not raise an alarm.
+func (c *Ctx) Floor(rule string, n int) {
+	eff := (n + 1) / 2
+	if eff < 1 {
+		eff = 1
+	}
+	c.floors[rule] = eff
+}
 
 // Discharge records an obligation that was met.
 func (c *Ctx) Discharge(rule, construct string, pos token.Pos, how string) {
